@@ -115,9 +115,27 @@ def run(ctx, rep):
         good = av[0] == 'call' and av[1].endswith('unwrap_or_else') and strip(av[2][0])[0] == 'call' and strip(av[2][0])[1] == parse
         cl = strip(av[2][1]) if good else None
         div = bool(cl) and cl[0] == 'closure' and cl[1] in prog.fns and diverges(prog.fns[cl[1]])
+        if not good and av[0] == 'call' and av[1] == parse:
+            # `let Ok(args) = X::parse(..) else { usage; exit(..) }` / match with a diverging Err arm: the phase call sits
+            # on the Ok side of the decision on parse's result, and the other side never returns nor reaches a phase
+            okc = [cd for cd in conditions(rt, c.bb, sl) if cd.kind == 'variant' and cd.outcome == frozenset({'Ok'})
+                   and strip(cd.subject)[0] == 'call' and strip(cd.subject)[1] == parse]
+            if okc:
+                cd = okc[-1]
+                others = [t for t in rt.succs(cd.sw_bb) if t != cd.target]
+                reach = set()
+                for t in others:
+                    reach |= rt.reachable(t)
+                escapes = [b for b in reach if b in rt.return_blocks() or any(pc.bb == b for pcs in phase_calls.values() for pc in pcs)]
+                exits = [(x, v) for x, v in exit_effects(prog, sl, rt) if x.bb in reach]
+                good = div = bool(others) and not escapes and bool(exits)
+                if good:
+                    rep.check(all(bad_code(v) for _, v in exits), 'R3', 'args/%s/exit' % phase, c.where(), 'usage error exits with %s' % [v[1] for _, v in exits],
+                              'usage error handler exit codes: %s' % [vstr(v) for _, v in exits])
+                    cl = None
         rep.check(good and div, 'R3', 'args/' + phase, c.where(), 'arguments = %s(argv) or a diverging error handler' % parse.split('::')[-2],
-                  'phase arguments are not parse(argv).unwrap_or_else(<diverging>): ' + vstr(av)[:120])
-        if div:
+                  'phase arguments are not parse(argv) with a diverging error handler: ' + vstr(av)[:120])
+        if div and cl is not None:
             hf = prog.fns[cl[1]]
             rep.analysed(hf)
             ex = exit_effects(prog, sl, hf)
@@ -265,10 +283,20 @@ def run(ctx, rep):
                 some = [cd for cd in cds if cd.kind == 'variant' and cd.enum == 'std::option::Option' and cd.outcome == frozenset({'Some'})
                         and strip(cd.subject)[0] == 'field' and strip(cd.subject)[2] == 'build_plan']
                 data_ok = any(x[0] == 'field' and x[2] == 'build_plan' for x in walk(e.args[1]))
-                rep.check(ok_path and bool(some) and data_ok, 'R4', 'detect/Pass/plan-write', e.where(), 'build plan written to args.build_plan_path iff Some',
-                          'plan write: path_ok=%s guarded_by_Some=%s data_ok=%s' % (ok_path, bool(some), data_ok))
+                # `build_plan.map(|p| write(p, ..)).transpose()?`: the closure runs exactly when the plan is Some
+                is_plan = lambda x: strip(x)[0] == 'field' and strip(x)[2] == 'build_plan'
+                implied = any(x[0] == 'unwrap' and is_plan(x[1]) for x in e.implied)
+                rep.check(ok_path and (bool(some) or implied) and data_ok, 'R4', 'detect/Pass/plan-write', e.where(), 'build plan written to args.build_plan_path iff Some',
+                          'plan write: path_ok=%s guarded_by_Some=%s data_ok=%s' % (ok_path, bool(some) or implied, data_ok))
                 if some:
                     rep.check(must_pass(rd, some[0].target, site.bb, top.bb), 'R4', 'detect/Pass/plan-write-must', e.where(),
+                              'with a plan, Ok(0) is only reached through the write', 'Ok(0) can be returned with a plan without writing it')
+                elif implied:
+                    levels = list(e.chain) + [e.call]
+                    cl = next((x for x in levels if x.fn.kind == 'Closure'), None)
+                    always = any(x.bb == top.bb for x, _ in E.must_calls(rd, [site.bb])) and cl is not None and \
+                        any(x.bb == cl.bb for x, _ in E.must_calls(cl.fn, [st.bb for st in E.sites(cl.fn)]))
+                    rep.check(always, 'R4', 'detect/Pass/plan-write-must', e.where(),
                               'with a plan, Ok(0) is only reached through the write', 'Ok(0) can be returned with a plan without writing it')
                 fa = verdict(result_fates(prog, top.fn, top))
                 rep.check(fa == 'ok', 'R4', 'detect/Pass/plan-write-propagated', e.where(), 'write error propagated', 'write result: ' + fa)
